@@ -1436,9 +1436,11 @@ class Engine:
                 cc = [x for x in c if x.name.endswith(nm) or nm.endswith(x.name)]
                 if len(cc) == 1:
                     f = cc[0]
-            if f is None and len(segs) == 1:
-                c = s.by_short.get(segs[0])
-                if c and len(c) == 1:
+            if f is None:
+                # rustc prints trimmed paths: a free function unique in its crate appears by its bare name
+                c = [x for x in s.by_short.get(segs[-1], []) if x.name == segs[-1] or x.name.endswith("::" + segs[-1])]
+                c = [x for x in c if "<impl" not in x.name]
+                if len(c) == 1 and (len(segs) == 1 or not s.is_std_path(segs)):
                     f = c[0]
         if f is not None:
             tp = None
